@@ -36,7 +36,7 @@ func (f *Fam) c09Grid(after Op) {
 		}
 	}
 	hints := []string{"", "access_token", "refresh_token", "garbage"}
-	scopes := []string{"", "a", "zzz", "a zzz", "offline a", "a.b", "*", "a ", "openid"}
+	scopes := []string{"", "a", "zzz", "a zzz", "offline a", "a.b", "*", "a ", "openid", "photos"}
 	for _, t := range f.M.Toks {
 		if t.Status == "unknown-dead" {
 			continue
